@@ -4,10 +4,13 @@ from props import _worldfam as F
 
 PID = 'C01'
 GENERATORS = ['consts']
-LEAN_TARGETS = ['EosProofs.Props.C01']
-DRIVERS = ['drv_world']
+LEAN_TARGETS = ['EosProofs.Props.C01', 'EosProofs.Props.C01World']
+DRIVERS = ['drv_world', 'drv_micro']
 TRUSTED = F.WORLD_TRUSTED
-RULE = ('random public-API histories (20-70 ops, 1-3 fits, 1-2 sources; mostly valid ops + malformed stream) on the '
+RULE = ('(implementation layer) the loaded-item message stream of the real code, recorded by a spy subscriber, drives '
+        'the Lean message-level model of the calculation service; after every public call the sets of privately '
+        'cached (item, attribute) entries and their values must be identical (4 parameter sets incl. projection-heavy '
+        'worlds, source switches, malformed ops); (specification layer) random public-API histories (20-70 ops, 1-3 fits, 1-2 sources; mostly valid ops + malformed stream) on the '
         'real code; after EVERY op the private modified-attribute caches are peeked (no read) and each cached entry is '
         'compared with the Lean from-scratch spec of the current public configuration (L2 cache coherence); at ~30% of '
         'the steps and at the end every attribute of every item and every running-effect set is read and compared (L1). '
@@ -19,7 +22,8 @@ ASSUMPTIONS = [
     'float rounding is not modelled: steps where a two-digit-rounded attribute sits on an exact tie are not judged (counted as fragile)',
 ]
 CLAUSES = {
-    'every readable value after any history = from-scratch value of the final configuration': 'proved for the abstract lazy-cache machine for all histories whose removal sets are Legal (inv_run, read_eq_spec, incremental_eq_scratch); instantiation of Legal for the eos handlers: see C01World theorems when present, otherwise correspondence only',
+    'every readable value after any history = from-scratch value of the final configuration': 'proved: abstract lazy-cache machine (inv_run, read_eq_spec, incremental_eq_scratch) instantiated with the message-level model of the handlers of service.py (C01World.micro_step_legal, micro_inv_run) and joined to the from-scratch table (C01World.world_read_eq_table) under: rank-well-formed universe, non-zero divisors, resistance only on projected effects, no fleet boosts, K1 side conditions',
+    'the message-level model is the code': 'cache-level differential run after every message (exact key sets and values); the compiled driver executes a table-backed twin proved equal to the model (C01World.driver_step_refines when present)',
     'which values were read on the way never matters': 'proved (reads are machine steps; cfg_run_filter + read_eq_spec)',
     'running effect sets equal from-scratch': 'correspondence (L1) against EosModel.World.runningEffects; decision table proved in C05',
     'invalidation cascade is upward closed': 'proved (cascade_upward_closed)',
@@ -35,9 +39,53 @@ LEVEL_NOTE = ('Trusted: Lean kernel + standard axioms; the hand-written world sp
 TECHNIQUE = 'Lean 4 invariant proof (cache coherence by induction over histories) + two-depth differential correspondence'
 
 
+MICRO_SETS = {
+    'micro-basic': dict(nsteps=30, nfits=2, nuni=1, limited=0, switch=False),
+    'micro-projheavy': dict(nsteps=45, nfits=3, nuni=1, switch=False, neff=12, proj_bias=True, prefill=True, nattr=7, limited=0),
+    'micro-switch': dict(nsteps=40, nfits=3, nuni=2, limited=0, disjoint=0.3, switch_weight=5),
+    'micro-malformed-decimal': dict(nsteps=60, nfits=2, nuni=2, limited=0, malformed=0.2, dyadic=False),
+}
+F.PARAM_SETS.update(MICRO_SETS)
+
+
+def _micro(ctx, rep, n):
+    """Implementation-layer correspondence: the message stream of the real code drives the Lean model of the
+    calculation service's handlers (EosModel/WorldMicro.lean); after every public call the private attribute
+    caches must hold exactly the same entries with the same values."""
+    from harness import microcorr as MC
+    from harness import worldcorr as WC
+    for pname, p in MICRO_SETS.items():
+        base = ctx.sub_rnd('micro', pname).randrange(10 ** 9)
+        for k in range(n):
+            seed = base + k
+            done, dis, st = MC.check(seed, p)
+            rep.case(sig=('micro', pname, seed) if st.get('cached_entries', 0) > 20 else None, kind=pname,
+                     sample=F.case_of(seed, pname, done[:10]) if k == 0 else None)
+            rep.dist['micro_steps'] += st.get('steps', 0)
+            rep.dist['micro_cached_entries_compared'] += st.get('cached_entries', 0)
+            if dis:
+                def fails(ops, where=dis['where']):
+                    d2 = MC.check(seed, p, ops)[1]
+                    return bool(d2) and d2['where'] == where
+                try:
+                    ops = WC.shrink(seed, p, done, fails)
+                    dis = MC.check(seed, p, ops)[1] or dis
+                except C.InfraError:
+                    raise
+                except Exception:
+                    ops = done
+                case = dict(F.case_of(seed, pname, ops), detail={k2: str(v) for k2, v in dis.items()})
+                rep.disagree(dis['where'], dis.get('model_only', dis.get('model')), dis.get('impl_only', dis.get('impl')), case)
+                why = F.replay_mirror(seed, p, ops)
+                if why:
+                    rep.violate('history on which the message-level model and the real caches disagree also fails '
+                                'the from-scratch oracle: ' + why, dict(case, oracle='mirror'))
+
+
 def correspondence(ctx):
     rep = ctx.report
     rep.rules.append(RULE)
+    _micro(ctx, rep, ctx.n(60, 1500))
     k = ctx.n(1, 20)
     n = {'basic': 40 * k, 'three-fits-decimal': 30 * k, 'fleet': 40 * k, 'long': 25 * k, 'projheavy': 90 * k}
     F.histories(ctx, rep, list(n), n, 'corr')
